@@ -189,6 +189,14 @@ def gen_cases(rng, tier):
         else:
             L, U = _random_extent(rng, T, dim, r)
             cases.append(_case(rng, 'rand-%d' % i, T, L, U, r, npts, scan=rng.chance(0.15) and total_cells(L, U, r) < 10 ** 6))
+            if rng.chance(0.25):
+                # the NEXT mapping built in the process shares resolution and lower corner with this one and is larger / smaller
+                # along some axes: objects share nothing (seeded change c13e: a per-thread memo of the centre tables keyed on
+                # resolution and snapped origin, not on the cell count)
+                for tag, f in (('grown', rng.uniform(1.3, 3.0)), ('shrunk', rng.uniform(0.3, 0.8))):
+                    U2 = [rnd(T, clamp(L[j] + (U[j] - L[j]) * (f if rng.chance(0.7) else 1.0), L[j], 1000.0)) for j in range(dim)]
+                    if total_cells(L, U2, r) < MAXCELLS / 8:
+                        cases.append(_case(rng, 'rand-%d-%s' % (i, tag), T, L, U2, r, npts, scan=total_cells(L, U2, r) < 10 ** 5))
     for i in range(n_bound):
         T = rng.choice(['f64', 'f32'])
         dim = rng.choice([2, 3])
